@@ -74,6 +74,97 @@ theorem mem_foldl_sins_map (f : Int → Int) (l : List Int) (acc : List Int) (x 
       · subst h1; left; left; exact h2.symm
       · right; exact ⟨z, h1, h2⟩
 
+/-- the quotient by a stable partition: start state, final states, transition function, runs, and where
+its table entries come from -/
+theorem buildMin_facts (d : DFA) (hwf : d.WF) (P : Partition) (hs : Stable d P) :
+    (buildMin d P).start = P.rep d.start ∧
+    (∀ x, x ∈ (buildMin d P).final ↔ ∃ f ∈ d.final, P.rep f = x) ∧
+    (∀ s ∈ d.states, ∀ a, (buildMin d P).δ (P.rep s) a = (d.δ s a).map P.rep) ∧
+    (∀ (w : Word) (s : Int), s ∈ d.states →
+      dfaRun (buildMin d P).δ (some (P.rep s)) w = (dfaRun d.δ (some s) w).map P.rep) ∧
+    (∀ r a r', (buildMin d P).δ r a = some r' →
+      ∃ G ∈ P.groups, r = G.2 ∧ ∃ t, d.δ (G.1.headD 0) a = some t ∧ P.rep t = r') ∧
+    (buildMin d P).WF := by
+  have hstart : d.start ∈ d.states := d.mem_states_of _ (Or.inl rfl)
+  have hfinal : ∀ f ∈ d.final, f ∈ d.states := fun f hf => d.mem_states_of _ (Or.inr (Or.inl hf))
+  rw [buildMin_eq]
+  have hsf := DFA.ofEntries_start_final (P.rep d.start) (d.final.foldl (fun acc f => sins (P.rep f) acc) [])
+    (P.groups.flatMap (minGroupEntries d P))
+  generalize hres : DFA.ofEntries (P.rep d.start) (d.final.foldl (fun acc f => sins (P.rep f) acc) [])
+    (P.groups.flatMap (minGroupEntries d P)) = res at hsf
+  have hmem : ∀ r a r', (r, a, r') ∈ P.groups.flatMap (minGroupEntries d P) ↔
+      ∃ G ∈ P.groups, r = G.2 ∧ ∃ t, d.δ (G.1.headD 0) a = some t ∧ P.rep t = r' := by
+    intro r a r'
+    simp only [List.mem_flatMap, mem_minGroupEntries d hwf]
+  have hsound : ∀ r a r', res.δ r a = some r' →
+      ∃ G ∈ P.groups, r = G.2 ∧ ∃ t, d.δ (G.1.headD 0) a = some t ∧ P.rep t = r' := by
+    intro r a r' h
+    rw [← hres] at h
+    rcases DFA.fold_sound _ _ r a r' h with h' | h'
+    · simp [DFA.δ, aget] at h'
+    · exact (hmem _ _ _).1 h'
+  have hdef : ∀ r a, (∃ G ∈ P.groups, r = G.2 ∧ ∃ t, d.δ (G.1.headD 0) a = some t) → (res.δ r a).isSome := by
+    intro r a ⟨G, hG, hr, t, ht⟩
+    rw [← hres]
+    exact DFA.fold_defined _ _ r a (Or.inr ⟨P.rep t, (hmem _ _ _).2 ⟨G, hG, hr, t, ht, rfl⟩⟩)
+  -- the quotient's transition function is the image of `d`'s
+  have key : ∀ s ∈ d.states, ∀ a, res.δ (P.rep s) a = (d.δ s a).map P.rep := by
+    intro s hs' a
+    -- whatever the table holds for `rep s` comes from a state with the same representative
+    have from_tbl : ∀ r', res.δ (P.rep s) a = some r' → (d.δ s a).map P.rep = some r' := by
+      intro r' h
+      obtain ⟨G, hG, hr, t, ht, hrt⟩ := hsound _ _ _ h
+      rcases hs.head G hG with ⟨_, hjunk⟩ | ⟨hh1, hh2⟩
+      · exact absurd hr (hjunk s hs')
+      · have := hs.sig _ hh1 s hs' (by rw [hh2, hr]) a
+        rw [← this, ht]; simp [hrt]
+    cases hd : d.δ s a with
+    | none =>
+      cases hr : res.δ (P.rep s) a with
+      | none => rfl
+      | some r' => have := from_tbl r' hr; rw [hd] at this; simp at this
+    | some t =>
+      obtain ⟨G, hG, hGr⟩ := P.rep_grp s (hs.cover s hs')
+      have hne : ∃ t', d.δ (G.1.headD 0) a = some t' := by
+        rcases hs.head G hG with ⟨_, hjunk⟩ | ⟨hh1, hh2⟩
+        · exact absurd hGr.symm (hjunk s hs')
+        · have := hs.sig _ hh1 s hs' (by rw [hh2, hGr]) a
+          rw [hd] at this
+          cases hx : d.δ (G.1.headD 0) a with
+          | none => rw [hx] at this; simp at this
+          | some t' => exact ⟨t', rfl⟩
+      obtain ⟨t', ht'⟩ := hne
+      have := hdef (P.rep s) a ⟨G, hG, hGr.symm, t', ht'⟩
+      rw [Option.isSome_iff_exists] at this
+      obtain ⟨r', hr'⟩ := this
+      have := from_tbl r' hr'
+      rw [hd] at this
+      rw [hr', ← this]
+  have hrun : ∀ (w : Word) (s : Int), s ∈ d.states →
+      dfaRun res.δ (some (P.rep s)) w = (dfaRun d.δ (some s) w).map P.rep := by
+    intro w
+    induction w with
+    | nil => intro s _; simp [dfaRun]
+    | cons a w ih =>
+      intro s hs'
+      simp only [dfaRun]
+      rw [key s hs' a]
+      cases hd : d.δ s a with
+      | none => simp [dfaRun_none]
+      | some t => simp only [Option.map_some]; exact ih t (d.step_mem_states hwf hd).2
+  refine ⟨hsf.1, ?_, key, hrun, hsound, ?_⟩
+  · intro x
+    rw [hsf.2, mem_foldl_sins_map]
+    simp
+  · rw [← hres]
+    unfold DFA.ofEntries
+    suffices h : ∀ (L : List (Int × Int × Int)) (d0 : DFA), d0.WF →
+        (L.foldl (fun (acc : DFA) e => acc.add e.1 e.2.1 e.2.2) d0).WF from h _ _ (by simp [DFA.WF, ASorted])
+    intro L
+    induction L with
+    | nil => intro d0 h; exact h
+    | cons e L ih => intro d0 h; simp only [List.foldl_cons]; exact ih _ (DFA.WF_add h _ _ _)
+
 /-- the quotient by a stable partition accepts the same language -/
 theorem buildMin_lang (d : DFA) (hwf : d.WF) (P : Partition) (hs : Stable d P) (w : Word) :
     (buildMin d P).lang w ↔ d.lang w := by
